@@ -105,7 +105,8 @@ CHECKS['C09'] = {
              "future must have completed. Bounded work per poll: predicate on implementation traces (calls per poll <= linear in data consumed), a 20000-call spin limit and a 4 s "
              "watchdog for mock-free spins. PROVED for both routers, every accepted trace: whenever a poll is about to return Pending, either a peer sink holds the task's waker (the router is "
              "blocked on it) or the registration channel does, having been polled to Pending in that very poll - neither router ever parks without a registered waker (the repaired "
-             "defect parked on streams alone with the channel unarmed). The bounded-step theorem is not yet proved."),
+             "defect parked on streams alone with the channel unarmed); and when a poll returns Pending in a step in which no sink answered Pending, the buffers are empty - pub/sub: the pulled "
+             "message has been handed over; req/rep: no reply and no rejection waits, a request waits only if no replier is bound. The bounded-step theorem is not yet proved."),
     'note': ROUTER_NOTE,
     'design': 'DESIGN.md section 3 C09',
 }
